@@ -258,6 +258,8 @@ fn cell_alphabet() -> Vec<Data> {
         Data::String(String::new()),
         // an integer that no f64 holds exactly (2^53 + 1): integer targets get it unchanged
         Data::Int(9_007_199_254_740_993),
+        // a fraction below one is still not zero
+        Data::Float(0.5),
     ]
 }
 
@@ -271,6 +273,8 @@ struct Case {
     mode: HMode,
     grid: Vec<Vec<Data>>,
     selection: Vec<String>,
+    /// the builder reaches its final configuration directly (0) or through an earlier, different setting (1, 2)
+    detour: u8,
 }
 
 fn build_case<T: Target>(ch: &mut Chooser, origin: P, h: usize, w: usize, mode: HMode) -> Option<Case> {
@@ -313,7 +317,8 @@ fn build_case<T: Target>(ch: &mut Chooser, origin: P, h: usize, w: usize, mode: 
         for _ in 0..w { row.push(ch.pick("cell", &alpha)); }
         grid.push(row);
     }
-    Some(Case { origin, h, w, mode, grid, selection })
+    let detour = if matches!(mode, HMode::None | HMode::All) { ch.choose("builder-reaches-its-setting-through-another-one", 3) as u8 } else { 0 };
+    Some(Case { origin, h, w, mode, grid, selection, detour })
 }
 
 fn make_range(c: &Case) -> Range<Data> {
@@ -333,7 +338,11 @@ type Obs = (Result<(), E>, Vec<(usize, Option<usize>)>, Vec<Result<String, E>>);
 fn observe<T: Target>(c: &Case, range: &Range<Data>) -> Obs {
     let sel: Vec<&str> = c.selection.iter().map(|s| s.as_str()).collect();
     let it = match c.mode {
+        HMode::None if c.detour == 1 => RangeDeserializerBuilder::new().has_headers(true).has_headers(false).from_range::<Data, T>(range),
+        HMode::None if c.detour == 2 => { static ONE: [&str; 1] = ["a"]; RangeDeserializerBuilder::with_headers(&ONE).has_headers(false).from_range::<Data, T>(range) }
         HMode::None => RangeDeserializerBuilder::new().has_headers(false).from_range::<Data, T>(range),
+        HMode::All if c.detour == 1 => RangeDeserializerBuilder::new().has_headers(false).has_headers(true).from_range::<Data, T>(range),
+        HMode::All if c.detour == 2 => { static ONE: [&str; 1] = ["a"]; RangeDeserializerBuilder::with_headers(&ONE).has_headers(true).from_range::<Data, T>(range) }
         HMode::All => RangeDeserializerBuilder::new().from_range::<Data, T>(range),
         HMode::Custom => RangeDeserializerBuilder::with_headers(&sel).from_range::<Data, T>(range),
         HMode::FromStruct => RangeDeserializerBuilder::with_deserialize_headers::<T>().from_range::<Data, T>(range),
